@@ -126,6 +126,9 @@ func cmdCheck(args []string) int {
 		if w := os.Getenv("FSX_WORKERS"); w != "" {
 			cfg.Workers, _ = strconv.Atoi(w)
 		}
+		if w := os.Getenv("FSX_PREEMPT"); w != "" { // diagnostic override
+			cfg.Preempt, _ = strconv.Atoi(w)
+		}
 		er := runEntry(prog, e, cfg, nil, nil)
 		results = append(results, er)
 		if *verbose {
